@@ -358,6 +358,20 @@ def rule_ar1(A: Analysis, rep):
             recv = A.xtext(tr[0].func.value, ct, stop=[n_.id for n_ in ast.walk(ct.node) if isinstance(n_, ast.Name) and isinstance(n_.ctx, ast.Store) and "from_str" in norm(getattr(n_, "_parent", n_))])
             ltc = [c for c in walk_local(ct.node) if isinstance(c, ast.Call) and A.res.is_call_to(c, "TaskIndex.load_transitive_closure")]
             ok = ok and len(ltc) == 1 and ltc[0].args and recv.endswith(".task_index.get_task(%s)" % norm(ltc[0].args[0]))
+    # second spelling: every visited task is collected (`traverse(ctx, L.append)`) and the archivable ones are selected
+    # afterwards (`[t.identifier for t in L if t.archivable]`)
+    if not ok and len(tr) == 1 and len(tr[0].args) >= 2 and isinstance(tr[0].args[1], ast.Attribute) and tr[0].args[1].attr == "append" and isinstance(tr[0].args[1].value, ast.Name):
+        lst = tr[0].args[1].value.id
+        rv_ = [r.value for r in walk_local(ct.node) if isinstance(r, ast.Return) and r.value is not None and norm(r.value) != "None"]
+        init = A.single_def_value(ct, lst)
+        if len(rv_) == 1 and isinstance(rv_[0], ast.ListComp) and len(rv_[0].generators) == 1 and init is not None and norm(init) in ("[]", "list()"):
+            gen = rv_[0].generators[0]
+            t = norm(gen.target)
+            only_app = [c for c in walk_local(ct.node) if isinstance(c, ast.Attribute) and isinstance(c.value, ast.Name) and c.value.id == lst]
+            ok = norm(gen.iter) == lst and norm(rv_[0].elt) == "%s.identifier" % t and [norm(i) for i in gen.ifs] == ["%s.archivable" % t] and len(only_app) == 1
+            recv = A.xtext(tr[0].func.value, ct, stop=[n_.id for n_ in ast.walk(ct.node) if isinstance(n_, ast.Name) and isinstance(n_.ctx, ast.Store) and "from_str" in norm(getattr(n_, "_parent", n_))])
+            ltc = [c for c in walk_local(ct.node) if isinstance(c, ast.Call) and A.res.is_call_to(c, "TaskIndex.load_transitive_closure")]
+            ok = ok and len(ltc) == 1 and ltc[0].args and recv.endswith(".task_index.get_task(%s)" % norm(ltc[0].args[0]))
     ok = ok and any(isinstance(c, ast.Call) and A.res.is_call_to(c, "TaskIndex.load_transitive_closure") for c in walk_local(ct.node))
     rep.check(ok, "AR1", "named task ⇒ archivable tasks of its closure", ct.node, "", "compute_tasks_to_archive no longer collects exactly the archivable tasks of the closure")
     ov = sorted(f.cls.name for f in A.prog.overriders("conductor.task_types.base.TaskType", "archivable"))
